@@ -41,6 +41,14 @@ CHECKS["C19"] = dict(
          "It does not decide bounded-time completion under every interleaving or the absence of events after close.",
     ref="DESIGN.md section 3 C19")
 
+CHECKS["C17"] = dict(
+    technique="qualifier (serial-number) analysis: seeded attribute table, propagation through assignments/containers/call graph, classification of every comparison, ordering call, additive arithmetic and truthiness test; finite evaluation of the helper moduli",
+    text="Decides the serial-number discipline that origin-independence needs: no raw order comparison, numeric sort/min/max, unreduced "
+         "addition/subtraction or truthiness test on any 16/32-bit wrapping counter (TSNs, stream and RTP sequence numbers, RTP timestamps, "
+         "RE-CONFIG sequence numbers), and that the blessed helpers use the right moduli on all boundary pairs. It does not decide the helper "
+         "algebra for all pairs nor end-to-end equality of behaviour under shifted origins.",
+    ref="DESIGN.md section 3 C17")
+
 NOT_APPLICABLE = {
     "C06": "every clause quantifies over loss schedules, timers and the interleaving of several channels' fragments across heap queues; no "
            "clause has a structural necessary condition that is not merely a description of one implementation (DESIGN.md section 5). Its "
